@@ -150,6 +150,9 @@ struct MFlow {
     closed: bool,
     /// closed in the monitor only because its idle deadline passed (sozu's teardown was not observed)
     idle_closed: bool,
+    /// the upstream port was bound successfully by the harness after the flow ended: that socket is closed,
+    /// a later datagram from the same port comes from a new socket the kernel gave the same number
+    verified_closed: bool,
 }
 
 #[derive(PartialEq, Clone, Copy, Debug)]
@@ -294,7 +297,10 @@ impl World {
                 continue;
             }
             match UdpSocket::bind(up) {
-                Ok(_) => self.c.tag("idle-flow-socket-verified-closed"),
+                Ok(_) => {
+                    self.c.tag("idle-flow-socket-verified-closed");
+                    self.flows[inc].verified_closed = true;
+                }
                 Err(e) if e.kind() == std::io::ErrorKind::AddrInUse => {
                     self.c.fail("idle-flow-not-torn-down", format!("flow {inc} of {client}: upstream socket {up} still open more than {LATE} ms after its idle deadline"));
                     self.c.tainted = true;
@@ -317,7 +323,10 @@ impl World {
                 continue; // the kernel handed the port to a newer flow
             }
             match UdpSocket::bind(up) {
-                Ok(_) => self.c.tag("closed-flow-socket-verified-closed"),
+                Ok(_) => {
+                    self.c.tag("closed-flow-socket-verified-closed");
+                    self.flows[inc].verified_closed = true;
+                }
                 Err(e) if e.kind() == std::io::ErrorKind::AddrInUse => {
                     self.c.fail("closed-flow-upstream-socket-still-open", format!("flow {inc} was torn down but its upstream socket {up} is still bound"));
                 }
@@ -407,7 +416,7 @@ impl World {
             (Exp::NewOrNothing, None) => {}
             (Exp::Nothing, Some(d)) => {
                 let bidx = d.sock - self.net.nclients;
-                let leaked = self.flows.iter().any(|f| f.idle_closed && f.bidx == bidx && f.up == d.from);
+                let leaked = self.flows.iter().any(|f| f.idle_closed && !f.verified_closed && f.bidx == bidx && f.up == d.from);
                 let class = if !valid {
                     "invalid-datagram-forwarded"
                 } else if leaked {
@@ -467,7 +476,10 @@ impl World {
                             self.c.tag("upstream-port-reused");
                             // the very socket of this key's expired flow? Either the kernel handed the port out
                             // again (1 in ~28000) or the flow was never torn down: confirm with a second expiry
-                            let old = self.flows.iter().rev().find(|f| f.idle_closed && f.bidx == bidx && f.up == d.from).cloned();
+                            let old = self.flows.iter().rev().find(|f| f.idle_closed && !f.verified_closed && f.bidx == bidx && f.up == d.from).cloned();
+                            if old.is_none() {
+                                self.c.tag("upstream-port-reused-by-kernel");
+                            }
                             if let Some(o) = old {
                                 // the datagram travelled on the socket of a flow whose idle deadline passed long ago
                                 self.c.trace_ok = false;
@@ -499,7 +511,7 @@ impl World {
                             self.to_probe.push((prev.inc, prev.up));
                         }
                         let inc = self.flows.len();
-                        self.flows.push(MFlow { inc, key, client, bidx, up: d.from, k: self.k.clone(), nsent: 0, nrecv: 0, deadline: t, closed: false, idle_closed: false });
+                        self.flows.push(MFlow { inc, key, client, bidx, up: d.from, k: self.k.clone(), nsent: 0, nrecv: 0, deadline: t, closed: false, idle_closed: false, verified_closed: false });
                         self.c.tag("flow-created");
                         self.flows.len() - 1
                     }
@@ -554,6 +566,11 @@ impl World {
         self.sweep(t);
         let f_closed = self.flows[fi].closed;
         let st = if f_closed { St::Gone } else { status(&f, t) };
+        if st != St::Alive && self.flows.iter().any(|g| !g.closed && g.inc != f.inc && g.bidx == f.bidx && g.up == f.up) {
+            // the kernel gave the old port to a newer flow's socket: a late reply would be a legitimate one there
+            self.c.tag("upstream-port-reused-by-kernel");
+            return;
+        }
         let valid = p.len() <= f.k_max_rx_now(self.k.max_rx);
         self.c.log.push(format!("t={} backend {} replies {} bytes on flow {} (upstream {}) [{:?}]", self.ms(t), f.bidx, p.len(), f.inc, f.up, st));
         let now_ms = self.ms(t);
